@@ -100,6 +100,18 @@ def run(F):
                 if d[0] == "stmt" and d[4]["k"] == "discr":
                     # Option discriminant of a probe of the list
                     pds = defs.of(d[4]["place"]["l"])
+                    # `match (list.pop(), list.pop())`: the probe is a component of a tuple built just before; copies
+                    pl_ = d[4]["place"]
+                    for _ in range(4):
+                        flds = [p_ for p_ in pl_["p"] if isinstance(p_, dict) and "f" in p_]
+                        pds = defs.of(pl_["l"])
+                        if len(pds) == 1 and pds[0][0] == "stmt" and pds[0][4]["k"] == "agg" and pds[0][4]["kind"].get("t") == "tuple" and len(flds) == 1 \
+                                and flds[0]["f"] < len(pds[0][4]["ops"]) and pds[0][4]["ops"][flds[0]["f"]].get("k") in ("copy", "move"):
+                            pl_ = pds[0][4]["ops"][flds[0]["f"]]["place"]
+                        elif len(pds) == 1 and pds[0][0] == "stmt" and pds[0][4]["k"] in ("use", "cast") and pds[0][4]["op"].get("k") in ("copy", "move") and not flds:
+                            pl_ = pds[0][4]["op"]["place"]
+                        else:
+                            break
                     if len(pds) == 1 and pds[0][0] == "call" and str(callee(pds[0][2])[2]) in PROBES and pds[0][2]["args"] \
                             and pds[0][2]["args"][0].get("k") in ("copy", "move") and _reaches(b, defs, pds[0][2]["args"][0]["place"]["l"], roots):
                         probe_bi = pds[0][1]
